@@ -148,6 +148,7 @@ func TestC03(t *testing.T) {
 		var d hx.Derived
 		var orders []hx.Order
 		classes := []string{}
+		histOK := false
 		switch {
 		case mode == 0: // adversarial int column forcing heapsort
 			sizes := []int{100, 200, 500, 1000, 2500, 5000}
@@ -272,6 +273,7 @@ func TestC03(t *testing.T) {
 			d.Route = append(d.Route, "presorted input, "+perturb)
 			classes = append(classes, "presorted")
 		default:
+			histOK = true
 			base := withID(hx.GenTable(t, hx.TableOpt{MinCols: 1, MaxCols: 5, Rows: hx.RowsUpTo(200), AllowDerived: true}))
 			d = hx.GenDerived(t, base, 4)
 			orders = genOrders(t, d.Exp, "id")
@@ -287,6 +289,19 @@ func TestC03(t *testing.T) {
 			t.Fatalf("derived frame differs from model: %s\n%s", diff, desc())
 		}
 		in := d.Exp
+		// now and then the frame has an earlier life that touched its data columns - grouped and aggregated, ordered, numbered,
+		// de-duplicated, tested for null, overwritten afterwards (what it then holds is observed) - and the orders tend to start
+		// with the column that life was about
+		if histOK && rapid.IntRange(0, 3).Draw(t, "history") == 0 {
+			var hist hx.History
+			d.QF, in, hist = hx.GenHistory(t, d.QF, in, true, "id")
+			d.Route = append(d.Route, hist.String(), "input "+in.String())
+			orders = genOrders(t, in, "id")
+			if c := in.Find(hist.Focus); c >= 0 && !(in.Cols[c].Kind == hx.KEnum && in.Cols[c].Enum == nil) && rapid.IntRange(0, 2).Draw(t, "histfirst") > 0 {
+				orders = append([]hx.Order{{Col: hist.Focus, Reverse: rapid.Bool().Draw(t, "hrev"), NullLast: rapid.Bool().Draw(t, "hnl")}}, orders...)
+			}
+			classes = append(classes, "with-history")
+		}
 
 		res := d.QF
 		realOrders := hx.BuildOrders(orders)
@@ -350,7 +365,13 @@ func TestC03(t *testing.T) {
 				orders2[0].NullLast = !orders2[0].NullLast
 			}
 			r2 := res
-			if perr := hx.Safely(func() { r2 = res.Sort(hx.BuildOrders(orders2)...) }); perr != nil || r2.Err != nil {
+			ro2 := hx.BuildOrders(orders2)
+			if rapid.Bool().Draw(t, "inplace") {
+				// the caller changes the order list it passed before in place and passes it again
+				copy(realOrders, ro2)
+				ro2 = realOrders
+			}
+			if perr := hx.Safely(func() { r2 = res.Sort(ro2...) }); perr != nil || r2.Err != nil {
 				t.Fatalf("Sort of the sorted frame: panic %v, Err %v\n%s", perr, r2.Err, desc())
 			}
 			g2, err := hx.Observe(r2)
